@@ -29,7 +29,8 @@ LEVEL_NOTE = ('real-thread tier: only the interleavings the OS and the injected 
 RULE = ('case = (variant, result sequence, transfer syntax, PDU sizes, delay profile); distinct = (variant, length, '
         'status pattern, ts, sizes); non-trivial = at least one match or a non-success final status')
 ASSUMPTIONS = ['pydicom encodes/decodes the match data sets consistently on both sides']
-REQUIRED = ['oracle.sequence-equal', 'oracle.query-unchanged', 'oracle.one-final', 'oracle.wire-count']
+REQUIRED = ['oracle.sequence-equal', 'oracle.query-unchanged', 'oracle.one-final', 'oracle.wire-count',
+            'oracle.handler-gives-up', 'sim.status-form-status-plain', 'sim.status-form-status-other-command']
 
 N = {'quick': 320, 'thorough': 8000}
 VARIANTS = ['lib-lib', 'lib-lib', 'lib-scp-refpeer-scu', 'lib-scu-refpeer-scp', 'mwl', 'c_find']
@@ -74,6 +75,33 @@ def make_matches(r, i, n):
         ds.StudyDescription = 'x' * r.choice([0, 3, 40, 300])
         out.append((ds, r.choice([0xFF00, 0xFF00, 0xFF01])))
     return out
+
+
+STATUS_FORMS = ['int', 'int', 'constant', 'status-find', 'status-plain', 'status-other-command']
+
+
+def status_in_form(code, form):
+    """The ways an application may hand a pending status to the provider."""
+    from pynetdicom2 import statuses, dimsemessages
+    if form == 'constant':
+        return statuses.C_FIND_PENDING if code == 0xFF00 else statuses.C_FIND_PENDING_WARNING
+    if form == 'status-find':
+        return statuses.Status(code, dimsemessages.CFindRSPMessage)
+    if form == 'status-plain':
+        return statuses.Status(code)
+    if form == 'status-other-command':
+        return statuses.Status(code, dimsemessages.CGetRSPMessage)
+    return code
+
+
+def failing_results(results, after):
+    """The application gives up after `after` matches (documented way: EventHandlingError)."""
+    from pynetdicom2 import exceptions
+    for k, item in enumerate(results):
+        if k == after:
+            break
+        yield item
+    raise exceptions.EventHandlingError('the database went away')
 
 
 def handler_results(matches, reuse):
@@ -137,25 +165,36 @@ def run_case(res, case, sigs, attempt=0):
         pad_to_multiple(query, enc, chunk)
     want = [(enc(ds) or None, st) for ds, st in matches]
     reuse = r.random() < 0.3
+    form = r.choice(STATUS_FORMS)
+    lib_scp = variant in ('lib-lib', 'mwl', 'c_find', 'lib-scp-refpeer-scu')
+    raise_after = r.randrange(0, n + 1) if (lib_scp and r.random() < 0.15) else None
+    if raise_after is not None:
+        want = want[:raise_after]
+    # both Query/Retrieve roots; the wrapper is called with the same local AE title for either
+    study_root = variant != 'mwl' and (i // len(VARIANTS)) % 2 == 1
     res.evaluations += 1 if not attempt else 0
     res.distinct.add('%s|%d|%s|%s|%d|%d' % (variant, n, ''.join(str(s & 1) for _, s in matches), ts[-1],
                                             server_max, client_max))
     net = tcpnet.Net(seed=seed * 100003 + i, jitter=jitter, delay=r.choice([0, 0, 0.001]))
-    where = '%s n=%d ts=%s server_max=%d client_max=%d jitter=%s' % (variant, n, ts, server_max,
-                                                                      client_max, jitter)
+    where = '%s n=%d ts=%s server_max=%d client_max=%d jitter=%s statuses-as=%s gives-up-after=%s root=%s' % (
+        variant, n, ts, server_max, client_max, jitter, form, raise_after, 'study' if study_root else 'patient')
     seen_queries = []
     got = None
     error = None
     wire_count = None
     final_kind = 0x0000
-    sop = svc.MWL if variant == 'mwl' else svc.FIND
+    sop = svc.MWL if variant == 'mwl' else ('1.2.840.10008.5.1.4.1.2.2.1' if study_root else svc.FIND)
+    res.count('sim.status-form-' + form if lib_scp else 'sim.reference-scp')
+    if raise_after is not None:
+        res.count('oracle.handler-gives-up')
     with tcpnet.instrument(net):
         try:
             if variant in ('lib-lib', 'mwl', 'c_find', 'lib-scp-refpeer-scu'):
                 class Server(tcpnet.TapServerMixin, applicationentity.AE):
                     def on_receive_find(self, context, ds):
                         seen_queries.append(enc(ds))
-                        return handler_results(matches, reuse)
+                        results = ((d, status_in_form(st, form)) for d, st in handler_results(matches, reuse))
+                        return results if raise_after is None else failing_results(results, raise_after)
                 server = Server('FINDSCP', 0, supported_ts=[ts], max_pdu_length=server_max)
                 server.net = net
                 server.timeout = 5
@@ -274,6 +313,10 @@ def run_case(res, case, sigs, attempt=0):
     if len(finals) != 1 or (got and got[-1][1] in (0xFF00, 0xFF01)):
         res.violation('final-response-count', 'C16.final', '%s: %d non-pending responses %r' % (
             where, len(finals), ['%04X' % s for _, s in got][-4:]), case)
+    elif raise_after is not None:
+        if finals[0][1] == 0x0000:
+            res.violation('final-status-altered', 'C16.final', '%s: the application gave up after %d matches, '
+                          'final status Success' % (where, raise_after), case)
     elif finals[0][1] != final_kind:
         res.violation('final-status-altered', 'C16.final', '%s: final status %04X, SCP sent %04X' % (
             where, finals[0][1], final_kind), case)
@@ -283,7 +326,7 @@ def run_case(res, case, sigs, attempt=0):
             where, len(seen_queries), [q == enc(query) for q in seen_queries]), case)
     if wire_count is not None:
         res.count('oracle.wire-count')
-        if wire_count != n + 1:
+        if wire_count != len(want) + 1:
             res.violation('wire-response-count', 'C16.wire', '%s: %d C-FIND-RSP on the wire, %d expected' % (
                 where, wire_count, n + 1), case)
     else:
